@@ -33,6 +33,7 @@ func runC13(c *Ctx) {
 	c13ReadOnlyIndexScan(c)
 	indexEntryName(c, "R3")
 	scannerCloseErrorReported(c, "R6")
+	revListNameIsRemainder(c, "R5")
 	{
 		// nested .gitattributes patterns are rebased with tools.TrimCurrentPrefix (rule of C19, shared)
 		saved := c.RulePrefix
